@@ -71,7 +71,7 @@ def field_corruptions(cmd, key, val):
         if cmd == 'add':
             out = [ABSENT, None, 0, 'a', 'A', 'b']          # duplicates in any case
     if key == 'signum':
-        out += ['bogus', 'SIGBOGUS', 'term!', '']
+        out += ['bogus', 'SIGBOGUS', 'term!', '', 100, 65, -1]      # the numbers: integers the kernel rejects (EINVAL)
     if key == 'match':
         out += ['bogus']
     if key == 'keys':
